@@ -292,6 +292,7 @@ def touched_keys(E: Engine, st: State, old: State):
 def verify_function(E: Engine, q: str) -> dict:
     """Generates all obligations for function q against its contract. Returns summary info."""
     c = E.spec.fns[q]
+    E.verifying = q
     fn, mod, cls, st = entry_state(E, q, c)
     # attachment checks
     nloops = len(loops_of(fn))
@@ -359,10 +360,12 @@ def check_post(E, fr, c, st, old, val, posts, kind, contract):
         binds["result"] = val
     pfr = Frame(fr.qname, fr.module, fr.cls, c, fr.fn, old=old, spec=True, entry_locals=fr.entry_locals, binds=binds)
     pfr.verify = True
+    from .spec import split_tags
     for i, p in enumerate(posts):
         g = E.sev_bool(p, st, pfr, binds)
         label = contract.label(i) if kind == "post" else str(i)
-        E.oblige(fr, st, kind, label, g, info=p)
+        tags, body = split_tags(p)
+        E.oblige(fr, st, kind, label, g, info=body, tags=tags)
 
 
 def check_frame(E, fr, c, st, old, kind):
